@@ -9,7 +9,7 @@ mkdir -p benign/logs
 if [ -z "$plan" ]; then plan=/tmp/benign-plan-all.txt; ls -d benign/*-b*/ | xargs -n1 basename > $plan; fi
 split -n r/$lanes $plan /tmp/benign-part.
 for f in /tmp/benign-part.*; do
-  ( while read n checks; do lib/run_benign.sh $n benign/$n/patch.diff $checks > benign/logs/$n.log 2>&1; done < $f ) &
+  ( while read n checks; do lib/run_benign.sh $n benign/$n/patch.diff $checks > benign/logs/$n.log 2>&1 < /dev/null; done < $f ) &
 done
 wait
 rm -f /tmp/benign-part.*
